@@ -11,13 +11,14 @@ checks = {
          "TLC model checking of depth memoisation + API replay + timestamp-permuted repositories judged by TLC", "4-C03"),
  "C04": (MC, "TLC checks that every finalized tree size equals the recursive expansion (7 dimensions) for all tree DAGs of the family in every delivery order (both RequireTreeSize branches); behaviours replayed into RegisterTree; per-tree finals recorded by hooks from binary runs are judged by TLC.",
          "TLC model checking of the listener cascade vs bottom-up expansion + API replay + per-tree finals judged by TLC", "4-C04"),
+ "C05": (MC, "The counter laws are model-checked for all pairs/triples at 4 and 8 bits (TLC) and proved for all operands at 32/64 bits (Apalache); TLC's 8-bit table is compared pair by pair with the width-narrowed real counts package; Scan is checked with tiny capacities; every behaviour of saturating families is replayed state for state into the width-narrowed real code (caps 255/65535); full-width bombs are scanned by the binary and judged with BigNat arithmetic in TLA+ (value = capacity, infinity sign, 30 '!'), with the number of tree steps equal to the number of distinct trees.",
+         "TLC all-pairs + Apalache all-integers counter laws, width-narrowed copy replayed against Scan, BigNat-judged full-width bombs", "4-C05"),
  "C08": (MC, "Scan+PathRes: witness attains the maximum and its description resolves in a TLA+ model of git rev-parse, for all small graphs/root kinds/styles/orders; on the real binary every printed description is resolved by git rev-parse itself and judged by TLC.",
          "TLC model checking of PathRes + API replay comparing rendered descriptions + git rev-parse as judge on binary runs", "4-C08"),
  "C09": (MC, "Order is the only nondeterminism of Scan: TLC enumerates every permutation; every one is replayed into sizes.Graph and all orders of one graph must agree with each other and with the oracle.",
          "TLC enumeration of all delivery orders + relational API replay + layout/date variants through the binary", "4-C09"),
 }
 pending = {
- "C05": "check under construction in this session (Counts/Scan saturation specs exist; harness part not yet registered)",
  "C06": "check under construction in this session", "C07": "check under construction in this session",
  "C10": "check under construction in this session", "C11": "check under construction in this session",
  "C12": "check under construction in this session", "C13": "check under construction in this session",
